@@ -10,6 +10,12 @@
      DEP  <bits> <tid> | <p> <x> | <p> <x>         two samplers of one ratio, one id, different other arguments
      SPAN <s> | <p> | <gen tid> <random 0|1> <x>   Tracer::StartSpan with options.parent = p; then, on a second tracer with the same
                                                    sampler, a root span whose generated trace id is the first span's trace id
+     SPANCX <s> | <m> <cs> | <arg> | <gen tid> <random 0|1> <x>
+                                                   Tracer::StartSpan while the thread's current context carries the is_root_span
+                                                   marker <m> (0 unset, 1 true, 2 set to false) and the span <cs> (NONE or <p>);
+                                                   <arg> = options.parent: IMPL (left unset) | SC <p> (a SpanContext) |
+                                                   CX <m> <cs> (a separate Context with marker and span) | CUR (the current context itself);
+                                                   the sampler's outermost ParentBased delegate is wrapped in a call counter
      DESC <s>                                      GetDescription()                                        *)
 From V Require Export C12.Spec.
 Local Open Scope Z_scope.
@@ -21,6 +27,7 @@ Inductive case :=
 | CMono (r1 r2 : float) (tid : bytes)
 | CDep (r : float) (tid : bytes) (p1 : span_ctx) (x1 : extra) (p2 : span_ctx) (x2 : extra)
 | CSpan (s : sampler) (p : span_ctx) (gen_tid : bytes) (random : bool) (x : extra)
+| CSpanCx (s : sampler) (cur_span : option span_ctx) (a : parent_arg) (gen_tid : bytes) (random : bool) (x : extra)
 | CDesc (s : sampler).
 
 Definition bits_ok (b : Z) : bool := (0 <=? b) && (b <? two64).
@@ -56,6 +63,30 @@ Definition parse_extra (l : list tok) : option extra :=
 
 Definition parse_tid (t : tok) : option bytes :=
   match t with TB b => if Nat.eqb (length b) 16 then Some b else None | _ => None end.
+
+(* the is_root_span marker of a context: 0 = not set, 1 = set to true, 2 = set to false (IsRootSpan is false) *)
+Definition parse_marker (z : Z) : option bool :=
+  if z =? 0 then Some false else if z =? 1 then Some true else if z =? 2 then Some false else None.
+Definition parse_opt_ctx (l : list tok) : option (option span_ctx) :=
+  match l with
+  | [t] => if is_tag "NONE" t then Some None else None
+  | _ => option_map Some (parse_ctx l)
+  end.
+Definition parse_parent_arg (cur_span : option span_ctx) (cur_marker : bool) (l : list tok) : option parent_arg :=
+  match l with
+  | [t] => if is_tag "IMPL" t then Some (PaSpanContext ctx_invalid)     (* StartSpanOptions::parent defaults to SpanContext::GetInvalid() *)
+           else if is_tag "CUR" t then Some (PaContext cur_span cur_marker)
+           else None
+  | t :: TZ m :: rest =>
+      if is_tag "CX" t then
+        match parse_marker m, parse_opt_ctx rest with
+        | Some mk, Some sp => Some (PaContext sp mk)
+        | _, _ => None
+        end
+      else None
+  | t :: rest => if is_tag "SC" t then option_map PaSpanContext (parse_ctx rest) else None
+  | [] => None
+  end.
 
 Definition parse_call (kind : sampler -> span_ctx -> bytes -> extra -> case) (rest : list tok) : option case :=
   match split_toks "|" rest with
@@ -102,6 +133,19 @@ Definition parse_case (l : list tok) : option case :=
             end
         | _ => None
         end
+      else if is_tag "SPANCX" t then
+        match split_toks "|" rest with
+        | [ls; TZ cm :: lcs; la; ti :: TZ rnd :: lx] =>
+            match parse_sampler ls, parse_marker cm, parse_opt_ctx lcs with
+            | Some s, Some cmk, Some cs =>
+                match parse_parent_arg cs cmk la, parse_tid ti, parse_bool rnd, parse_extra lx with
+                | Some a, Some tid, Some r, Some x => Some (CSpanCx s cs a tid r x)
+                | _, _, _, _ => None
+                end
+            | _, _, _ => None
+            end
+        | _ => None
+        end
       else if is_tag "DESC" t then option_map CDesc (parse_sampler rest)
       else None
   | [] => None
@@ -143,6 +187,7 @@ Definition run_model (l : list tok) : list tok :=
   | Some (CSpan s p g rnd x) =>
       let st := start_span s p g rnd x in
       print_started st ++ [TZ (st_flags (start_span s ctx_invalid (st_tid st) rnd x))]
+  | Some (CSpanCx s cs a g rnd x) => print_started (start_span_cx s cs a g rnd x) ++ [TZ (root_sampler_calls s cs a)]
   | Some (CDesc s) => match description s with Some d => [TB d] | None => [tag "UNMODELLED"] end
   | None => bad_case
   end.
@@ -179,6 +224,13 @@ Definition run_tag (l : list tok) : list tok :=
             dec_tag (ratio_decide (calc_threshold r1) tid) +s+ dec_tag (ratio_decide (calc_threshold r2) tid))]
   | Some (CDep r tid p1 x1 p2 x2) => [tag ("dep_" +s+ thr_tag r +s+ "_" +s+ dec_tag (fst (should_sample (SRatio r) p1 tid x1)))]
   | Some (CSpan s p g rnd x) => [tag ("span_" +s+ sampler_tag s +s+ "_" +s+ ctx_tag p)]
+  | Some (CSpanCx s cs a g rnd x) =>
+      [tag ("spancx_" +s+ sampler_tag s +s+ "_" +s+
+            match a with
+            | PaSpanContext c => "sc_" +s+ ctx_tag c
+            | PaContext None m => if m then "cx_marker_only" else "cx_empty"
+            | PaContext (Some c) m => (if m then "cx_marker_" else "cx_") +s+ ctx_tag c
+            end +s+ "_cur_" +s+ match cs with Some c => ctx_tag c | None => "none" end)]
   | Some (CDesc s) => [tag ("desc_" +s+ sampler_tag s)]
   | None => bad_case
   end.
@@ -223,6 +275,15 @@ Definition run_spec (l obs : list tok) : list tok :=
       | [a; b; c; d; TZ root_flags] =>
           match parse_started [a; b; c; d] with
           | Some o => spec_start_span s p g o ++ spec_participants s o root_flags
+          | None => fail "obs:unparsable"
+          end
+      | _ => fail "obs:unparsable"
+      end
+  | Some (CSpanCx s cs a g rnd x) =>
+      match obs with
+      | [ta; tb; tc; td; TZ calls] =>
+          match parse_started [ta; tb; tc; td] with
+          | Some o => spec_start_span_cx s cs a g o calls
           | None => fail "obs:unparsable"
           end
       | _ => fail "obs:unparsable"
